@@ -341,6 +341,16 @@ func genSidecarCase(r *Rng, long bool) *SCase {
 			if op.Ok {
 				op.Scraped = r.PickI(0, 1, 2, 3, 4, 5, 7, 10)
 				op.Total = op.Scraped + r.PickI(0, 0, 1, 6)
+				if r.Chance(3) {
+					// a body of a few hundred KiB: the stream parser hands it over in several blocks, and
+					// every metric family has samples in more than one of them; followed by a read of the
+					// per-metric detail
+					op.Scraped = int64(5000 + r.Intn(4000))
+					op.Total = op.Scraped + int64(r.Intn(3000))
+					c.Ops = append(c.Ops, op)
+					c.Ops = append(c.Ops, SOp{Kind: "samples"})
+					continue
+				}
 			}
 			c.Ops = append(c.Ops, op)
 		case k < 9 || !r.Chance(50):
